@@ -26,6 +26,10 @@ type CaseC14 struct {
 	Sizes    []int   `json:"sizes"`
 	Request  []int   `json:"request"`
 	Remove   []int   `json:"remove"` // for RemoveElementaryStreams
+	// CRCFlip, when non-zero, is XORed into the CRC_32 of the input section. Only the
+	// C13 emitted-section check uses it (the C14 statement is about well-formed input):
+	// whatever is emitted must carry a CRC_32 that is right for the emitted bytes.
+	CRCFlip uint32 `json:"crc_flip,omitempty"`
 }
 
 func genC14(t *rapid.T) CaseC14 {
@@ -48,6 +52,11 @@ func genC14(t *rapid.T) CaseC14 {
 	c.Sizes = genSizes(t, len(payload), nil)
 	// requested list
 	absent := func(label string) int {
+		// sometimes a value outside the 13-bit PID range that collides with a stream's PID under truncation to 13, 16 or 32 bits: never in the PMT
+		if len(c.PMT.Streams) > 0 && rapid.IntRange(0, 3).Draw(t, label+"-alias") == 0 {
+			base := c.PMT.Streams[rapid.IntRange(0, len(c.PMT.Streams)-1).Draw(t, label+"-alias-of")].PID
+			return base + rapid.SampledFrom([]int{1 << 13, 1 << 16, -(1 << 16), 3 << 16, 1 << 32, -(1 << 13), 1 << 31}).Draw(t, label+"-alias-by")
+		}
 		p := int(genBits(t, 13, label))
 		for used[p] {
 			p = (p + 1) & 0x1FFF
